@@ -26,7 +26,8 @@ def parseRawStatement : PM Top := do
   let tok ← cur
   if !(← expectPeek .RAWSTRING) then
     fail (newRangeParseError (← cur) (← peek) "raw statement must begin with a backtick character '`'")
-  return .raw tok (← cur).lit
+  let v ← cur
+  return .raw tok v v.lit
 
 /-- `parseTextStatement` -/
 def parseTextStatement (env : Env) (fuel : Nat) : PM Top := do
